@@ -13,7 +13,7 @@ RULE = ('Hypothesis draws (T, v) from U (without ANY; REAL values exactly repres
         'floats). Oracle (b): for BER, CER and DER, encode(py, asn1Spec=T) - py being the tree of built-in values the native '
         'encoder produced, i.e. with the keys of absent OPTIONAL members simply missing - equals encode(r) byte for byte. '
         'Non-trivial = T constructed, or an OPTIONAL member absent, or an empty string / bit string; distinct = distinct (T, v).')
-RULE += (' ' + "Also: value objects that come out of construction histories (C04's), ENUMERATED leaves of the Python tree spelled by name, and the tree handed out by the native encoder scribbled over before the same value is converted again (results belong to the caller).")
+RULE += (' ' + "Also: value objects that come out of construction histories (C04's), ENUMERATED leaves of the Python tree spelled by name, and the tree handed out by the native encoder scribbled over before the same value is converted again (results belong to the caller). Also: BER encoder modes on the value-plus-schema path; exponents to the ends of the double range; a sub-check for named numbers and named bits - two sibling types derived from one base name list by +, clone() or subtype(namedValues=), names given as Python strings, expected bytes computed from the case.")
 ASSUMPTIONS = ['the "equivalent value object" of a Python tree is its native decoding under the same type (so float<->REAL '
                'conversion cannot produce a spurious difference)']
 SHARDS = {'quick': (16, 250), 'thorough': (16, 6000)}
